@@ -222,7 +222,8 @@ def check_case(sink, c, o, seed, idx):  # noqa: C901
 def run_shard(sink, tier, seed, shard):
     n_trees = harness.scale(6000, 120000, tier)
     k = 4 if tier == 'quick' else 6
-    opts = gen.all_opts()
+    # f replaces leaf values: predicates that look at leaf values would classify the mapped tree differently (not a property of tree_map)
+    opts = [o for o in gen.all_opts() if o.pred not in gen.LEAF_CONTENT_PREDS]
     i0, step = (shard or {}).get('i', 0), (shard or {}).get('n', 1)
     for idx in range(i0, n_trees, step):
         c = harness.make_case('c05', seed, idx, size_budget=16)
